@@ -122,22 +122,40 @@ func recvTypeName(fn string) string {
 // the receiver's type name and whether its clauses talk about reflect kinds.
 func (c *Ctx) dispatchOf(recv string, wantKinds bool) *tagSwitch {
 	var best *tagSwitch
-	for _, ts := range c.tagSwitches("nbt") {
-		if len(ts.cases) < 9 || recvTypeName(ts.fn) != recv {
-			continue
-		}
-		// (the kinds a dispatcher talks about, in its clauses or in the helpers they call)
-		ks := map[string]bool{}
-		for _, cc := range ts.cases {
-			for k := range c.clauseKinds(ts, cc) {
-				ks[k] = true
+	// the dispatch may have moved out of the type's method into a function of the package the
+	// method hands its work to
+	reachable := map[string]bool{}
+	for _, fn := range c.Funcs() {
+		if inPkgs(fn, "nbt") && fn.Parent() == nil && recvTypeName(core.FnName(fn)) == recv {
+			for _, g := range c.withPkgCallees(fn, 2) {
+				reachable[core.FnName(g)] = true
 			}
 		}
-		if wantKinds != (len(ks) >= 8) {
-			continue
-		}
-		if best == nil || len(ts.cases) > len(best.cases) {
-			best = ts
+	}
+	for pass := 0; pass < 2 && best == nil; pass++ {
+		for _, ts := range c.tagSwitches("nbt") {
+			if len(ts.cases) < 9 {
+				continue
+			}
+			if pass == 0 && recvTypeName(ts.fn) != recv {
+				continue
+			}
+			if pass == 1 && (!reachable[ts.fn] || recvTypeName(ts.fn) != "") {
+				continue
+			}
+			// (the kinds a dispatcher talks about, in its clauses or in the helpers they call)
+			ks := map[string]bool{}
+			for _, cc := range ts.cases {
+				for k := range c.clauseKinds(ts, cc) {
+					ks[k] = true
+				}
+			}
+			if wantKinds != (len(ks) >= 8) {
+				continue
+			}
+			if best == nil || len(ts.cases) > len(best.cases) {
+				best = ts
+			}
 		}
 	}
 	return best
